@@ -49,7 +49,7 @@ def run_case(rng, idx, tier):
     if forced == "prim" and rng.random() < 0.5:
         class_p = {"axial": .5, "lattice": .2, "feature": .15, "gap": .15}
     sA, sB, cls, truth = pairs.make_pair(rng, kA, kB, margin_p=margin_p, class_p=class_p)
-    oA, oB, L = pairs.scene(sA, sB)
+    oA, oB, L = pairs.scene(sA, sB, k=1e-3)
     A, B = pairs.build_pair(sA, sB)
     tol = TOL * L
     names = (O.name(sA), O.name(sB))
